@@ -6,7 +6,10 @@ Inert unless PYTASK_VERIF=1.  When active it numbers *observation points*
 * entry and exit of the hooks `pytask_execute_task_protocol`, `…_setup`, `pytask_execute_task`, `…_teardown`,
   `…_process_report`, `…_log_end` and `pytask_unconfigure` (outermost wrappers, exit also on an exception), and
 * SQLAlchemy `before_commit` / `after_commit` of every session made by `pytask.DatabaseSession`
-  (labelled with the table of the row being written: `state` or `runtime`),
+  (labelled with the table of the row being written: `state` or `runtime`), and
+* SQLAlchemy `before_cursor_execute` / `after_cursor_execute` of every INSERT / UPDATE / DELETE statement on those tables
+  (`stmt.before` / `stmt.after`): a kill between two statements of one transaction — harmless when the transaction is rolled
+  back at process death, not harmless when the engine runs in autocommit mode,
 
 appends one line `<n> <kind> <task>` per point to the file named by PYTASK_VERIF_POINTS, and calls `os._exit(137)` at the
 n-th point when PYTASK_VERIF_CRASH=<n> (the point's line is written first).  Nothing in /repo is touched.
@@ -107,9 +110,41 @@ def _after_commit(session) -> None:
     point("commit.after", _last_table)
 
 
+def _stmt_table(statement) -> str | None:
+    """table of a data-changing statement on pytask's tables, else None"""
+    try:
+        words = str(statement).replace('"', " ").replace("`", " ").split()
+        head = words[0].upper() if words else ""
+        if head == "INSERT" and len(words) > 2 and words[1].upper() == "INTO":
+            table = words[2]
+        elif head == "UPDATE" and len(words) > 1:
+            table = words[1]
+        elif head == "DELETE" and len(words) > 2 and words[1].upper() == "FROM":
+            table = words[2]
+        else:
+            return None
+        table = table.split("(")[0].split(".")[-1].lower()
+        return table if table in ("state", "runtime") else None
+    except Exception:  # noqa: BLE001
+        return None
+
+
+def _before_cursor_execute(conn, cursor, statement, parameters, context, executemany) -> None:
+    table = _stmt_table(statement)
+    if table:
+        point("stmt.before", table)
+
+
+def _after_cursor_execute(conn, cursor, statement, parameters, context, executemany) -> None:
+    table = _stmt_table(statement)
+    if table:
+        point("stmt.after", table)
+
+
 def _install_events() -> None:
     try:
         from sqlalchemy import event
+        from sqlalchemy.engine import Engine
 
         from _pytask.database_utils import DatabaseSession
     except Exception:  # noqa: BLE001
@@ -117,6 +152,9 @@ def _install_events() -> None:
     if not event.contains(DatabaseSession, "before_commit", _before_commit):
         event.listen(DatabaseSession, "before_commit", _before_commit)
         event.listen(DatabaseSession, "after_commit", _after_commit)
+    if not event.contains(Engine, "before_cursor_execute", _before_cursor_execute):
+        event.listen(Engine, "before_cursor_execute", _before_cursor_execute)
+        event.listen(Engine, "after_cursor_execute", _after_cursor_execute)
 
 
 _install_events()
